@@ -75,15 +75,27 @@ func c12Store(M, L int, kind string, mi, li int) (*metrics.Store, []*metrics.Met
 
 type failingWriter struct {
 	n, failAt int
+	temporary bool
 }
 
 func (w *failingWriter) Write(p []byte) (int, error) {
 	w.n++
 	if w.n > w.failAt {
+		if w.temporary {
+			// what a connection whose deadline has passed answers, every time: a timeout that
+			// calls itself temporary
+			return 0, timeoutErr{}
+		}
 		return 0, errors.New("injected write failure")
 	}
 	return len(p), nil
 }
+
+type timeoutErr struct{}
+
+func (timeoutErr) Error() string   { return "i/o timeout (injected)" }
+func (timeoutErr) Timeout() bool   { return true }
+func (timeoutErr) Temporary() bool { return true }
 
 type failingRW struct {
 	*httptest.ResponseRecorder
@@ -189,6 +201,9 @@ func c12One(exp string, M, L int, kind string, mi, li int) (int, int, string) {
 			if kind == "write" {
 				w = &failingWriter{failAt: k}
 			}
+			if kind == "twrite" {
+				w = &failingWriter{failAt: k, temporary: true}
+			}
 			if err := e.VerifWriteSocketMetrics(w, "graphite"); err != nil {
 				note = "err"
 			}
@@ -262,6 +277,7 @@ func c12Faults(exp string, M, L int) [][3]string {
 				}
 			case "push":
 				add("write", mi, li)
+				add("twrite", mi, li)
 				add("utf8", mi, li)
 				if li == 0 {
 					add("write+w", mi, li)
